@@ -261,6 +261,24 @@ def append_handle_histories():
     return hs
 
 
+def copied_handle_histories():
+    """a file that was moved (directly or inside a moved directory) and then copied: handles opened on the copy, on the moved file and on a
+    re-created source, written, flushed, dropped; every file read back"""
+    hs = []
+    pre = [op("mkdir_p", "/d"), op("write_all", "/d/f", b"orig")]
+    moves = [[op("move_p", "/d/f", "/g")], [op("move_p", "/d", "/e"), op("move_p", "/e/f", "/g")], [op("move_p", "/d", "/e"), op("copy", "/e/f", "/g")], []]
+    copies = [[op("copy", "/g", "/c")], [op("copy", "/g", "/c"), op("remove", "/g")], [op("copy", "/g", "/c"), op("write_all", "/g", b"changed")], [op("move_p", "/g", "/c")]]
+    for mv in moves:
+        src = "/g" if mv else "/d/f"
+        for cp in copies:
+            cp2 = [x.replace(hx("/g"), hx(src)) for x in cp]
+            for opener in ["open_a:%s" % hx("/c"), "open_w:%s" % hx("/c"), "open_a:%s" % hx(src)]:
+                for body in [["hwrite:0:%s" % b"+X".hex(), "hflush:0"], ["hwrite:0:%s" % b"+X".hex(), "hdrop:0"], ["hwrite:0:%s" % b"+X".hex(), "hflush:0", "hwrite:0:%s" % b"+Y".hex(), "hdrop:0"]]:
+                    hs.append("\t".join(["hist", "h", envspec(MEM_ENV)] + pre + mv + cp2 + [opener] + body +
+                                        [op("read_all", "/c"), op("read_all", src), op("read_all", "/d/f"), op("read_all", "/e/f")]))
+    return hs
+
+
 def stale_handle_histories(tier):
     """a write / append handle that outlives its file: the path is removed (or moved away) and possibly re-created as something
     else before the handle is flushed or dropped"""
@@ -652,6 +670,9 @@ def c06_streams(tier, rng, ctx):
     sts.append(Stream("c06-handles-under-change", "mirror", append_handle_histories(), impl_env=dict(MEM_ENV), judge=lambda l, o: True, exhaustive=True,
                       rule="an append / write handle that has flushed once, the file changing underneath it (write_all, append_all, another handle, re-creation), and the handle "
                            "writing, flushing and dropping again: the content read back"))
+    sts.append(Stream("c06-handles-on-copies", "mirror", copied_handle_histories(), impl_env=dict(MEM_ENV), judge=lambda l, o: True, exhaustive=True,
+                      rule="a file moved (directly or inside a moved directory), then copied; an append / write handle on the copy or on the moved file written, flushed, "
+                           "dropped; every file read back: the copy does not alias its source"))
     sts.append(Stream("c06-stale-handles", "mirror", stale_handle_histories(tier), impl_env=dict(MEM_ENV), judge=lambda l, o: True, exhaustive=True,
                       rule="a write / append handle that outlives its file (removed, moved away, re-created as a directory, link or new file): what read_all returns afterwards"))
     # the same content laws on the real filesystem: files of different lengths overwritten, appended, copied over each other and moved, on both backends side by side
@@ -695,7 +716,10 @@ def c12_streams(tier, rng, ctx):
     adv = ["", "/", "//", ".", "..", "~", "~/", "~x", "$", "${", "$V", "${V}", "$NOPE", "a//b", "../../../..", "/" + "../" * 50, "é", "/é/語/😀", "ab//€€",
            "/ab/cƒ//x", "a//b/😀/c", "file://", "FILE:///é", "http://x//y", "x" * 300, "/" + "/".join(["d"] * 60), "a\tb", "a:b", "/a/./b/../c/", "~/~",
            # multi-byte characters right after the characters the expander slices at
-           "~é", "~日/x", "~😀", "~/é", "é~", "$é", "${é}", "$Vé", "${V}é", "~€/$V", "file:é", "é" * 100]
+           "~é", "~日/x", "~😀", "~/é", "é~", "$é", "${é}", "$Vé", "${V}é", "~€/$V", "file:é", "é" * 100,
+           # characters whose lower- or upper-case form has another UTF-8 length, before and after the characters helpers search for
+           "\u0130//", "\u0130//é", "\u212a\u212a//", "\u212a//x", "\u023a//x", "\u1e9e//", "FILE\u0130://x", "\u0130file://x", "http://\u0130//", "\u0130.\u0130", "x.\u212a",
+           "\u0130/\u0130", "~\u0130", "$\u0130", "\u00df//", "\ufb01le://x"]
     calls1 = ["abs", "exists", "is_dir", "is_file", "is_symlink", "is_exec", "is_readonly", "mode", "owner", "uid", "gid", "set_cwd", "mkfile", "mkdir_p",
               "read_all", "read_lines", "remove", "remove_all", "readlink", "readlink_abs", "paths", "dirs", "files", "all_paths", "all_dirs", "all_files"]
     hs = []
